@@ -13,15 +13,17 @@ func DecodeUTF16(b []byte) (string, error) {
 		return "", fmt.Errorf("must have even length byte slice")
 	}
 
-	u16s := make([]uint16, 1)
+	lb := len(b)
+	u16s := make([]uint16, 0, lb/2)
+	for i := 0; i < lb; i += 2 {
+		u16s = append(u16s, uint16(b[i])+(uint16(b[i+1])<<8))
+	}
+
+	// decode the units together so that surrogate pairs form one rune
 	ret := &bytes.Buffer{}
 	b8buf := make([]byte, 4)
-
-	lb := len(b)
-	for i := 0; i < lb; i += 2 {
-		u16s[0] = uint16(b[i]) + (uint16(b[i+1]) << 8)
-		r := utf16.Decode(u16s)
-		n := utf8.EncodeRune(b8buf, r[0])
+	for _, r := range utf16.Decode(u16s) {
+		n := utf8.EncodeRune(b8buf, r)
 		ret.Write(b8buf[:n])
 	}
 
